@@ -104,12 +104,14 @@ package extendeddaemonsetreplicaset
 //@   modifies nothing
 //@   ensures !result1 ==> result != nil && fresh(result)
 //@   ensures only-reads: forall k int :: lognew(k) ==> logverb(k) == "Get"
+//@   ensures one-get-into-the-result: loglen() == old(loglen()) + 1 && (!result1 ==> logobj(old(loglen())) == result)
 //@ func (*Reconciler).getDaemonsetOwner
 //@   logs
 //@   requires r != nil && r.client != nil && replicaset != nil
 //@   modifies nothing
 //@   ensures result1 == nil ==> result != nil && fresh(result)
 //@   ensures only-reads: forall k int :: lognew(k) ==> logverb(k) == "Get"
+//@   ensures one-get-into-the-result: result1 == nil ==> loglen() == old(loglen()) + 1 && logobj(old(loglen())) == result
 //@ func (*Reconciler).updateReplicaSet
 //@   logs
 //@   requires r != nil && r.client != nil && replicaset != nil && newStatus != nil
